@@ -93,6 +93,7 @@ def case_strategy(draw):
         "handler": draw(handler_cfg(mets)),
         "handler2": draw(handler_cfg(mets)),
         "real": real,
+        "primes": draw(st.lists(st.sampled_from(sorted(lib.PRIMES)), min_size=0, max_size=2)) if draw(st.integers(0, 2)) == 0 else [],
     }
 
 
@@ -152,6 +153,7 @@ def observe(res, mets):
 
 
 def check(case, stats):
+    lib.run_primes(case.get("primes"))
     pred, ref, cfg = _cfg(case)
     mets = case["imetrics"]
     base = [m for m in mets if m != "clDSC"]
